@@ -201,14 +201,6 @@ func (c *client) Execute(
 	}
 	// Wrap it in a runtime message.
 	workStartMsg = RuntimeMessage{RunID: stepData.RunID, MessageID: MessageTypeWorkStart, MessageData: workStartMsg}
-	// Handle signals to the step
-	if signalsToStep != nil {
-		c.wg.Add(1)
-		go func() {
-			defer c.wg.Done()
-			c.executeWriteLoop(stepData.RunID, signalsToStep)
-		}()
-	}
 	// Setup channels for ATP v2
 	err := c.prepareResultChannels(cborReader, stepData, signalsFromStep)
 	if err != nil {
@@ -224,6 +216,15 @@ func (c *client) Execute(
 		return NewErrorExecutionResult(fmt.Errorf("failed to write work start message (%w)", err))
 	}
 	c.logger.Debugf("Step '%s' started, waiting for response...", stepData.ID)
+	// Handle signals to the step. Only now that the work start is out: a signal written before it is refused by the
+	// peer as a signal for an unknown run, and is lost.
+	if signalsToStep != nil {
+		c.wg.Add(1)
+		go func() {
+			defer c.wg.Done()
+			c.executeWriteLoop(stepData.RunID, signalsToStep)
+		}()
+	}
 
 	return c.getResultV2(stepData)
 }
